@@ -1,6 +1,6 @@
 (* Graph.rename_demes (demes/demes.py:2007-2037) *)
 From Coq Require Import Bool List String.
-From Demes Require Import Base.Num Base.Py Model.MDM.
+From Demes Require Import Base.Num Base.Py Model.MDM Spec.Valid.
 Import ListNotations.
 Local Open Scope string_scope.
 Local Open Scope list_scope.
@@ -41,10 +41,17 @@ Section Rename.
     | d :: ds' => build_index (S i) ds' (dict_set (d_name d) i acc)
     end.
 
-  Definition rename_demes (names : namemap) (g : graph) : graph :=
+  Definition rename_core (names : namemap) (g : graph) : graph :=
     mkGraph (g_desc g) (g_units g) (g_gt g) (g_doi g) (g_meta g)
             (map (deme_rename names) (g_demes g))
             (map (mig_rename names) (g_migs g))
             (map (pulse_rename names) (g_pulses g))
             (build_index 0 (map (deme_rename names) (g_demes g)) []).
+
+  (* the renamed graph must still be valid: new names are identifiers and unique *)
+  Definition rename_demes (names : namemap) (g : graph) : res graph :=
+    let h := rename_core names g in
+    forM_ (fun d => raise_if (negb (is_identifier (d_name d))) ValueErr) (g_demes h) ;;;
+    raise_if (negb (Nat.eqb (List.length (g_index h)) (List.length (g_demes h)))) ValueErr ;;;
+    Ok h.
 End Rename.
